@@ -1,6 +1,10 @@
 package main
 
 import (
+	"strconv"
+
+	"github.com/ipld/go-ipld-prime/datamodel"
+	"github.com/ipld/go-ipld-prime/fluent/qp"
 	"github.com/ipld/go-ipld-prime/node/basicnode"
 
 	"github.com/ucan-wg/go-ucan/pkg/policy"
@@ -18,6 +22,47 @@ func globObs(pattern, s string) W {
 	return WOk(WBool(ok))
 }
 
+// the same statement as it arrives from outside: [["like", ".", pattern]] read with policy.FromIPLD and,
+// when the pattern is text, with policy.FromDagJson. A like statement means the same whichever way the
+// policy came into being; the two decoded routes must agree or the observation is a disagreement.
+func globObsDecoded(pattern, s string) W {
+	nd, err := qp.BuildList(basicnode.Prototype.Any, 1, func(la datamodel.ListAssembler) {
+		qp.ListEntry(la, qp.List(3, func(st datamodel.ListAssembler) {
+			qp.ListEntry(st, qp.String("like"))
+			qp.ListEntry(st, qp.String("."))
+			qp.ListEntry(st, qp.String(pattern))
+		}))
+	})
+	if err != nil {
+		return WStr("build-failed")
+	}
+	pol, err := policy.FromIPLD(nd)
+	if err != nil {
+		return WErr()
+	}
+	ok, _ := pol.Match(basicnode.NewString(s))
+	if isPlainText(pattern) {
+		pj, err := policy.FromDagJson(`[["like",".",` + strconv.Quote(pattern) + `]]`)
+		if err != nil {
+			return WStr("json-route-refused")
+		}
+		okj, _ := pj.Match(basicnode.NewString(s))
+		if okj != ok {
+			return WStr("ipld-and-json-routes-disagree")
+		}
+	}
+	return WOk(WBool(ok))
+}
+
+func isPlainText(s string) bool {
+	for i := 0; i < len(s); i++ {
+		if s[i] < 0x20 || s[i] > 0x7e {
+			return false
+		}
+	}
+	return true
+}
+
 func genGlob(c *Ctx) {
 	maxLen := 5
 	if c.Thorough() {
@@ -28,12 +73,16 @@ func genGlob(c *Ctx) {
 	for _, p := range all {
 		for _, s := range all {
 			c.Emit("like/exh", WList(WStr(p), WStr(s)), globObs(p, s))
+			if len(p) < maxLen && len(s) < maxLen {
+				c.Emit("like/decoded", WList(WStr(p), WStr(s)), globObsDecoded(p, s))
+			}
 		}
 	}
 	// F9 witnesses and suite examples first-class in every run
 	for _, ps := range [][2]string{{"*", "*a"}, {"a*", "a*b"}, {"*b", "*ab"}, {`\*`, "*"}, {`\*`, `\*`}, {`\\`, `\`},
 		{`Alice\*, Bob*, Carol.`, "Alice*, Bob, Dan, Erin, Carol."}, {`Alice\*, Bob*, Carol.`, "Alice, Bob, Carol."}, {"", ""}, {"**", ""}} {
 		c.Emit("like/corpus", WList(WStr(ps[0]), WStr(ps[1])), globObs(ps[0], ps[1]))
+		c.Emit("like/decoded", WList(WStr(ps[0]), WStr(ps[1])), globObsDecoded(ps[0], ps[1]))
 	}
 	// text outside ASCII and bytes that are not UTF-8: every sequence of up to 3 (patterns) / 3 (strings) pieces
 	// from multi-byte characters, U+FFFD, invalid bytes, the wildcard and the escape
@@ -58,6 +107,7 @@ func genGlob(c *Ctx) {
 	for _, p := range seqs[first:] {
 		for _, sv := range seqs[first:] {
 			c.Emit("like/sentinels", WList(WStr(p), WStr(sv)), globObs(p, sv))
+			c.Emit("like/decoded", WList(WStr(p), WStr(sv)), globObsDecoded(p, sv))
 		}
 	}
 	seqs = seqs[:first]
@@ -101,5 +151,8 @@ func genGlob(c *Ctx) {
 			s = c.R.Str("ab*\\.", 12)
 		}
 		c.Emit("like/rnd", WList(WStr(p), WStr(s)), globObs(p, s))
+		if i%4 == 0 {
+			c.Emit("like/decoded", WList(WStr(p), WStr(s)), globObsDecoded(p, s))
+		}
 	}
 }
